@@ -1,5 +1,6 @@
 """C09 — empirical quantiles: correspondence of csep.utils.stats with Model/Ecdf.lean + direct oracle."""
 import bisect
+import math
 import itertools
 from fractions import Fraction
 
@@ -45,7 +46,8 @@ RULE = ("exhaustive: every multiset of size 1..7 over two 6-letter alphabets (1.
         "+-2**53 that differ by less than the float64 spacing (compared as exact Python integers); binned_ecdf over the same "
         "dtypes; queries also as 0-d arrays; samples also behind strided / negative-stride / read-only / byte-swapped "
         "layouts; +-inf queries; histories on one array object changed in place between lookups (refill, single entry, "
-        "*= 2, in-place sort, progressive fill); sup_dist_na / sup_dist on two samples with ties within and between them; "
+        "*= 2, in-place sort, progressive fill, append to a list, a new object in place of a dropped one); samples of "
+        "65537..200003 values with counts above 65535; float pools with subnormal / 1e-300 / -0.0 / 1e300 values; sup_dist_na / sup_dist on two samples with ties within and between them; "
         "min_or_none / max_or_none over all dtypes incl. empty input; "
         "a case is non-trivial when the sample has a tie or the query equals a sample value; distinct by (sample, query)")
 
@@ -176,6 +178,18 @@ def _impl(arg, v):
     return ge, le, q, gec, lec
 
 
+def _scalar(o):
+    """an implementation output as a Python float; TypeError for None / arrays with several entries / strings"""
+    if o is None or isinstance(o, (str, bytes, list, tuple, dict)):
+        raise TypeError(f"{type(o).__name__} instead of a number")
+    a = numpy.asarray(o)
+    if a.shape not in ((), (1,)) or a.dtype.kind not in "fiub":
+        raise TypeError(f"shape {a.shape} dtype {a.dtype} instead of a real scalar")
+    if a.shape != ():
+        raise TypeError("1-element array instead of a scalar")
+    return float(a)
+
+
 def _vtype(v):
     if isinstance(v, numpy.ndarray):
         return v.dtype.name + "@0d"
@@ -241,6 +255,15 @@ def _check_case(run, drv, pending, x, v, as_list, tag, layout=None):
     except Exception as e:  # the property promises a value for every non-empty sample
         run.oracle_failure(full(), f"exception {type(e).__name__}: {e}", signature=sig)
         ask_np(("exc", type(e).__name__))
+        return
+    # every output must be one real number (a deviation in type / shape is reported, never a harness crash)
+    try:
+        ge, le, gec, lec = (_scalar(o) for o in (ge, le, gec, lec))
+        q = (_scalar(q[0]), _scalar(q[1])) if len(q) == 2 else None
+        if q is None:
+            raise TypeError("get_quantiles did not return a pair")
+    except Exception as e:
+        run.oracle_failure(full(), f"output is not a pair of real numbers: {type(e).__name__}: {e}", signature=sig)
         return
     kge = sum(1 for t in fx if t >= fv)
     kle = sum(1 for t in fx if t <= fv)
@@ -352,17 +375,22 @@ def run(run, rng, tier):
             pool = [round(rng.uniform(-3, 9), 1) for _ in range(rng.randint(1, 20))]
         else:
             pool = [rng.uniform(-1e3, 1e3) for _ in range(rng.randint(1, 50))]
+            if rng.random() < 0.3:     # magnitudes of very different size: subnormal, 1e-300, -0.0, 1e300, next to ordinary ones
+                pool += rng.sample([5e-324, -5e-324, 1e-300, -1e-300, 2.2250738585072014e-308, -0.0, 0.0, 1e-8, 1e300, -1e300,
+                                    1.7976931348623157e308, 1.0, numpy.nextafter(1.0, 2)], 5)
         x = [rng.choice(pool) for _ in range(n)]
         lo, hi = min(pool), max(pool)
         qs = [rng.choice(pool), rng.choice(pool), lo, hi, lo - 1, hi + 1, (lo + hi) / 2,
               numpy.nextafter(rng.choice(pool), numpy.inf), numpy.nextafter(rng.choice(pool), -numpy.inf)]
-        for v in rng.sample(qs, 3):
+        qs = [v for v in qs if kind == "int" or math.isfinite(float(v))]
+        for v in rng.sample(qs, min(3, len(qs))):
             _check_case(run, drv, pending, x, float(v) if kind != "int" else v, rng.random() < 0.3, "random-" + kind)
     _dtype_cases(run, drv, pending, rng, tier)
     _flush(run, drv, pending)
     _binned(run, rng, tier)
     _binned_dtypes(run, rng, tier)
     _infinite_queries(run, rng, tier)
+    _large_samples(run, rng, tier)
     _sessions(run, rng, tier)
     _sup_dist(run, rng, tier)
     _min_max(run, rng, tier)
@@ -390,11 +418,17 @@ def _binned(run, rng, tier):
             continue
         fx = [Fraction(t) for t in x]
         want = [sum(1 for t in fx if t <= Fraction(v)) / n for v in vals]
-        if list(got[1]) != want or list(got[0]) != vals:
-            run.oracle_failure(case, f"binned_ecdf={list(got[1])!r} expected {want!r}")
-        if list(ex) != sorted(x) or list(ey) != [(i + 1) / n for i in range(n)]:
+        try:
+            g1, g0 = [_scalar(t) for t in got[1]], [_scalar(t) for t in got[0]]
+            e0, e1 = [_scalar(t) for t in ex], [_scalar(t) for t in ey]
+        except Exception as e:      # None, wrong shape, wrong type: a deviation, not a harness crash
+            run.oracle_failure(case, f"binned_ecdf / ecdf output cannot be read: {type(e).__name__}: {e}")
+            continue
+        if g1 != want or g0 != vals:
+            run.oracle_failure(case, f"binned_ecdf={g1!r} expected {want!r}")
+        if e0 != sorted(x) or e1 != [(i + 1) / n for i in range(n)]:
             run.oracle_failure(case, "ecdf(x) is not (sorted x, (1..n)/n)")
-        pend.append((case, drv.ask(f"binned_ecdf {flist(x)} {flist(vals)}"), list(got[1])))
+        pend.append((case, drv.ask(f"binned_ecdf {flist(x)} {flist(vals)}"), g1))
     out = drv.run()
     for case, i, got in pend:
         try:
@@ -561,9 +595,12 @@ def _binned_dtypes(run, rng, tier):
             run.oracle_failure(case, f"exception {type(e).__name__}: {e}", signature=bsig)
             continue
         want = [sum(1 for t in fx if t <= v) / n for v in fvals]
-        if got is None or list(got[1]) != want or [_exact(t) for t in got[0]] != fvals:
-            run.oracle_failure(case, f"binned_ecdf={None if got is None else list(got[1])!r} expected {want!r}",
-                               signature=bsig)
+        try:
+            ok = got is not None and [_scalar(t) for t in got[1]] == want and [_exact(t) for t in got[0]] == fvals
+        except Exception:
+            ok = False
+        if not ok:
+            run.oracle_failure(case, f"binned_ecdf={got!r:.300} expected {want!r}", signature=bsig)
             continue
         pend.append((case, drv.ask(f"binned_ecdf {flist(Fraction(t) for t in fx)} {flist(Fraction(t) for t in fvals)}"),
                      list(got[1])))
@@ -609,6 +646,48 @@ def _infinite_queries(run, rng, tier):
             run.oracle_failure(case, f"(ge, le)={got!r} quantiles={q!r}, expected {want}")
 
 
+# ----------------------------------------------------------------------------- samples of more than 2**16 values
+def _run_large(run, case):
+    from csep.utils import stats
+    n, dt = case["n"], numpy.dtype(case["xdtype"])
+    pool = [int(t) if dt.kind in "iu" else float(t) for t in case["pool"]]
+    g = numpy.random.RandomState(case["rs"])
+    arr = numpy.array(pool, dtype=dt)[g.randint(0, len(pool), size=n)]
+    v = int(case["v"]) if dt.kind in "iu" else float(case["v"])
+    a64 = arr.astype(numpy.int64 if dt.kind in "iu" else numpy.float64)
+    kge, kle = int((a64 >= v).sum()), int((a64 <= v).sum())
+    try:
+        q = stats.get_quantiles(arr, v)
+        got = (_scalar(q[0]), _scalar(q[1]), _scalar(stats.greater_equal_ecdf(arr, v)), _scalar(stats.less_equal_ecdf(arr, v)))
+    except Exception as e:
+        run.oracle_failure(case, f"exception {type(e).__name__}: {e}")
+        return
+    if got != (kge / n, kle / n, kge / n, kle / n):
+        run.oracle_failure(case, f"n={n}: (ge, le)={got!r}, expected ({kge}/{n}, {kle}/{n})")
+
+
+def _large_samples(run, rng, tier):
+    """n > 65536 (not a multiple of 65536) with ties so heavy that the counts themselves exceed 65535: 16-bit counters,
+    float32 rank vectors and block-wise algorithms show here. Exact oracle with numpy integer / float64 comparisons
+    (exact for these dtypes); the model is not asked (the request line would hold 10^5 rationals)."""
+    for _ in range(6 if tier == "quick" else 40):
+        n = rng.choice([65537, 70001, 131073, 200003, 65536 * 3 + 17])
+        dt = numpy.dtype(rng.choice(["int64", "float64", "int32", "float32", "uint16", "uint8"]))
+        nv = rng.choice([1, 2, 3, 7])
+        if dt.kind in "iu":
+            pool = [rng.randrange(0, 200) for _ in range(nv)]
+        else:
+            pool = [float(dt.type(rng.choice([0.25, 1.5, 3.0, 7.75, 0.1, 2.3]))) for _ in range(nv)]
+        rs = rng.randrange(2 ** 32)
+        for v in rng.sample(pool + [min(pool) - 1, max(pool) + 1], min(3, len(pool) + 2)):
+            if dt.kind == "u" and v < 0:
+                continue
+            case = dict(tag="large-sample", n=n, xdtype=dt.name, pool=[repr(t) for t in pool], v=repr(v), rs=rs)
+            run.case(case, ("large", n, dt.name, tuple(pool), v))
+            run.count("large-sample")
+            _run_large(run, case)
+
+
 # ----------------------------------------------------------------------------- histories on ONE sample object
 def _run_session(run, case):
     """one numpy array object is looked at, changed IN PLACE, looked at again, ...: every lookup must answer for the
@@ -616,11 +695,30 @@ def _run_session(run, case):
     from csep.utils import stats
     dt = numpy.dtype(case["xdtype"])
     conv = (lambda t: int(Fraction(t))) if dt.kind in "iu" else (lambda t: float(Fraction(t)))
-    x = numpy.array([conv(t) for t in case["init"]], dtype=dt)
+    as_list = case.get("container") == "list"
+    x = [conv(t) for t in case["init"]] if as_list else numpy.array([conv(t) for t in case["init"]], dtype=dt)
     other = numpy.array([conv(t) for t in case["init"]][::-1], dtype=dt)
+    vals_buf = numpy.zeros(1, dtype=dt)          # ONE query array for binned_ecdf, refilled in place
     for k, st in enumerate(case["steps"]):
         op = st["op"]
-        if op == "refill":
+        if op == "realloc":                      # the old object is dropped, a NEW one (often at the same address) takes its place
+            del x
+            x = [conv(t) for t in st["vals"]] if as_list else numpy.array([conv(t) for t in st["vals"]], dtype=dt)
+        elif op == "append" and as_list:
+            x.append(conv(st["vals"][0]))
+        elif as_list and op in ("refill", "fill-progressively"):
+            x[:] = [conv(t) for t in st["vals"]][:len(x)] + x[len(st["vals"]):]
+        elif as_list and op == "set-one":
+            x[st["i"] % len(x)] = conv(st["vals"][0])
+        elif as_list and op == "double":
+            x[:] = [2 * t for t in x]
+        elif as_list and op == "sort-inplace":
+            x.sort()
+        elif as_list and op == "reverse":
+            x.reverse()
+        elif as_list:
+            pass
+        elif op == "refill":
             x[:] = numpy.array([conv(t) for t in st["vals"]], dtype=dt)
         elif op == "set-one":
             x[st["i"] % len(x)] = conv(st["vals"][0])
@@ -636,18 +734,22 @@ def _run_session(run, case):
         elif op == "other-array":
             stats.get_quantiles(other, conv(st["v"]))
         v = conv(st["v"])
-        fx = [_exact(t) for t in (x.tolist() if dt.kind in "iu" else x)]
+        fx = [_exact(t) for t in (x if as_list else (x.tolist() if dt.kind in "iu" else x))]
         n = len(fx)
         kge, kle = sum(1 for t in fx if t >= _exact(v)), sum(1 for t in fx if t <= _exact(v))
         try:
             how = st.get("call", "quantiles")
             if how == "quantiles":
-                got = tuple(map(float, stats.get_quantiles(x, v)))
+                got = tuple(map(_scalar, stats.get_quantiles(x, v)))
             elif how == "separate":
-                got = (float(stats.greater_equal_ecdf(x, v)), float(stats.less_equal_ecdf(x, v)))
+                got = (_scalar(stats.greater_equal_ecdf(x, v)), _scalar(stats.less_equal_ecdf(x, v)))
+            elif how == "cdf":                   # the documented cdf= argument with the ecdf of the sample AS IT IS NOW
+                cdf = stats.ecdf(x)
+                got = (_scalar(stats.greater_equal_ecdf(x, v, cdf=cdf)), _scalar(stats.less_equal_ecdf(x, v, cdf=cdf)))
             else:
-                b = stats.binned_ecdf(x, numpy.array([v], dtype=dt))
-                got = (float(stats.greater_equal_ecdf(x, v)), float(b[1][0]))
+                vals_buf[0] = v
+                b = stats.binned_ecdf(x, vals_buf)
+                got = (_scalar(stats.greater_equal_ecdf(x, v)), _scalar(b[1][0]))
         except Exception as e:
             run.oracle_failure(case, f"step {k} ({op}): exception {type(e).__name__}: {e}")
             return
@@ -672,11 +774,12 @@ def _sessions(run, rng, tier):
         steps = []
         for _k in range(rng.randint(2, 6)):
             op = rng.choice(["none", "refill", "refill", "set-one", "double", "sort-inplace", "reverse",
-                             "fill-progressively", "other-array"])
+                             "fill-progressively", "other-array", "realloc", "realloc", "append"])
             steps.append(dict(op=op, vals=[val() for _ in range(n)], i=rng.randrange(n), v=q(),
-                              call=rng.choice(["quantiles", "quantiles", "separate", "binned"])))
-        case = dict(tag="session", xdtype=dt.name, init=[val() for _ in range(n)], steps=steps)
-        run.case(dict(tag="session", xdtype=dt.name, n=n, ops=[st["op"] for st in steps]),
+                              call=rng.choice(["quantiles", "quantiles", "separate", "binned", "cdf"])))
+        case = dict(tag="session", xdtype=dt.name, init=[val() for _ in range(n)], steps=steps,
+                    container=rng.choice(["array", "array", "list"]))
+        run.case(dict(tag="session", xdtype=dt.name, n=n, container=case["container"], ops=[st["op"] for st in steps]),
                  ("session", dt.name, tuple(case["init"]), tuple((st["op"], tuple(st["vals"]), st["v"]) for st in steps)))
         run.count("session")
         for st in steps:
@@ -805,6 +908,9 @@ def replay(run, payload):
     if case.get("tag") == "session":
         run.case(case, None)
         return _run_session(run, case)
+    if case.get("tag") == "large-sample":
+        run.case(case, None)
+        return _run_large(run, case)
     if case.get("tag") == "binned-dtype":
         from csep.utils import stats
         dx, dq = numpy.dtype(case["xdtype"]), numpy.dtype(case["vdtype"])
